@@ -138,6 +138,7 @@ def _native_table():
     t = {
         "int_str": lambda i: str(i),
         "flt_str": lambda r: str(float(r)),
+        "nearest_double": lambda r: Fraction(float(r)),
         "repr_str": lambda s: repr(s),
         "str_lower": lambda s: s.lower(),
         "str_upper": lambda s: s.upper(),
